@@ -93,11 +93,43 @@ def procLoopVisit (c : Cfg) : Nat → Sh → PPc → List Nat
      | none => [])
 
 /-- the processor's loop: peekMessageSize, peekMessage, processIncoming, in.ReadCommit, then the
-`isDone() && in.Len() == 0` test; the receiver loops over in.ReadFrom, the sender over out.WriteTo
-(both with their deferred ring Close: `bufferLocks`, C15) -/
+`isDone() && in.Len() == 0` test; the receiver loops over in.ReadFrom (and calls conn.Close: 3), the
+sender over out.WriteTo (both with their deferred ring Close: `bufferLocks`, C15) -/
 theorem facts_loops :
     procLoopVisit probeCfg 5 { inR := { buf := 4 }, stream := [⟨2, 4, .normal []⟩] } .size = Mqtt.Generated.lifeProcLoop ∧
-    Mqtt.Generated.lifeRecvCalls = [1] ∧ Mqtt.Generated.lifeSendCalls = [2] := by decide
+    Mqtt.Generated.lifeRecvCalls = [1, 3] ∧ Mqtt.Generated.lifeSendCalls = [2] := by decide
+
+def RPc.exitCode : RPc → List Nat
+  | .connClose => [3] | .wgDone => [4] | _ => []
+
+/-- what the model's receiver does from `pc` on: 3 = `conn.Close()`, 4 = return (deferred Done) -/
+def recvExitVisit (c : Cfg) : Nat → Sh → RPc → List Nat
+  | 0, _, _ => []
+  | n + 1, sh, pc =>
+    RPc.exitCode pc ++
+    (match rstep c sh 1 pc with
+     | some (sh', pc') => recvExitVisit c n sh' pc'
+     | none => [])
+
+/-- the socket after the model's receiver has run from `pc` to its end -/
+def recvExitSock (c : Cfg) : Nat → Sh → RPc → Sock
+  | 0, sh, _ => sh.sock
+  | n + 1, sh, pc =>
+    match rstep c sh 1 pc with
+    | some (sh', pc') => recvExitSock c n sh' pc'
+    | none => sh.sock
+
+/-- **the receiver after a failed read** (b77088f): `if err != nil { …; conn.Close(); return }` —
+the source has that shape, and the model's receiver, started inside a socket read that fails (the
+peer has closed; the read deadline has fired), visits `conn.Close()` and then returns, leaving the
+socket closed; the receiver before the repair (`recvCloses := false`) returned at once -/
+theorem facts_receiver :
+    Mqtt.Generated.lifeRecvOnError = [3, 4] ∧
+    recvExitVisit probeCfg 8 { sock := .peerClosed } .read = Mqtt.Generated.lifeRecvOnError ∧
+    recvExitVisit probeCfg 8 { timeout := true } .read = Mqtt.Generated.lifeRecvOnError ∧
+    recvExitSock probeCfg 8 { timeout := true } .read = .closed ∧
+    recvExitVisit { probeCfg with recvCloses := false } 8 { timeout := true } .read = [4] ∧
+    recvExitSock { probeCfg with recvCloses := false } 8 { timeout := true } .read = .open := by decide
 
 def WPc.code : WPc → List Nat
   | .check => [1] | .lock => [2, 3] | .wait => [4] | .commit => [5, 6] | _ => []
